@@ -1,0 +1,8 @@
+//go:build !verif
+
+package http
+
+import "sync"
+
+func verifYield(site string)                     {}
+func verifAwaitLock(mu *sync.Mutex, site string) {}
